@@ -805,7 +805,118 @@ def rule_sharded_implicit(chk, prog):
   chk.at_least(rule, 4)
 
 
+def _numfold(t, env):
+  """Folds an integer / float term under env: {attr or sym name: value}; raises Inconclusive on anything else."""
+  import math
+  k, a = t.k, t.a
+  if k == 'const':
+    return a[0]
+  if k == 'sym' and a[0] in env:
+    return env[a[0]]
+  if k == 'attr' and a[1] in env:
+    return env[a[1]]
+  if k == 'sub' and a[0].k == 'attr' and a[0].a[1] == 'shape' and a[1].k == 'const' and ('mesh.' + str(a[1].a[0])) in env:
+    return env['mesh.' + str(a[1].a[0])]
+  if k == 'bin' and a[0] in ('+', '-', '*', '/', '//', '%'):
+    l, r = _numfold(a[1], env), _numfold(a[2], env)
+    return {'+': lambda: l + r, '-': lambda: l - r, '*': lambda: l * r, '/': lambda: l / r, '//': lambda: l // r, '%': lambda: l % r}[a[0]]()
+  if k == 'bool' and a[0] == 'or':
+    ops = a[1] if len(a) == 2 and isinstance(a[1], tuple) else a[1:]
+    for x in ops:
+      v = _numfold(x, env)
+      if v:
+        return v
+    return v
+  if k == 'phi':
+    c = sym.show(a[0])
+    if c.endswith('spmd_mesh is not None)'):
+      return _numfold(a[1] if env.get('has_mesh', True) else a[2], env)
+    if c.endswith('spmd_mesh is None)'):
+      return _numfold(a[2] if env.get('has_mesh', True) else a[1], env)
+  if k == 'call' and a[0].k == 'ext' and a[0].a[0] in ('math.ceil', 'numpy.ceil') and a[1]:
+    return math.ceil(_numfold(a[1][0], env))
+  if k == 'call' and a[0].k == 'ext' and a[0].a[0] == 'int' and a[1]:
+    return int(_numfold(a[1][0], env))
+  raise guards.Inconclusive(sym.show(t)[:80])
+
+
+def rule_shape_dispatch(chk, prog):
+  """C07.13: maybe_to_nodal / maybe_to_modal decide "already in this representation" by comparing the trailing shape with the grid's nodal / modal
+  shape.  Padding makes both shapes multiples of the mesh: when they coincide the test cannot tell the representations apart and modal data are
+  returned as if they were nodal (and vice versa).  The padded-shape formulas are read from the current source and folded over the library's
+  named grids × every (x, y) mesh on 1..8 devices."""
+  import re
+  rule = 'C07.13-representation-dispatch-by-shape-is-unambiguous'
+  sites = []
+  for fname, getter, tr in (('maybe_to_nodal', 'get_nodal_shapes', 'inverse_transform'), ('maybe_to_modal', 'get_modal_shapes', 'transform')):
+    f = prog.func(f'{CS}.{fname}')
+    ev = sym.Evaluator(prog, sym.Options(opaque={f'{CS}.{getter}'}))
+    v, _, env = ev.run(f)
+    fi, cenv = ev.get_func(env['fn']) if 'fn' in env else (None, None)
+    chk.require(fi is not None, f'{CS}.{fname}: the per-leaf dispatch function is no longer bound to `fn`')
+    b, _, _ = ev.run(fi, closure=cenv)
+    x = S(fi.param_names()[0])
+    by_shape = b.k == 'phi' and b.a[1] == x and sym.contains(b.a[0], lambda t: t.k == 'attr' and t.a[1] == 'shape' and t.a[0] == x) and sym.contains(b.a[2], lambda t: t.k == 'call' and util.callee_name(t) == tr)
+    sites.append((fname, f, by_shape))
+  if not any(bs for _, _, bs in sites):
+    for fname, f, _ in sites:
+      chk.ok(rule, f'{CS}.{fname}: the representation is not inferred from the array shape', '', (f.file, f.lineno))
+    return
+  # padded shapes of the fast implementation, from the source
+  c = prog.cls(f'{SH}.FastSphericalHarmonics')
+  forms = {}
+  for m in ('nodal_shape', 'modal_shape'):
+    ev = sym.Evaluator(prog, sym.Options(opaque={f'{SH}._round_to_multiple'}))
+    v, _, _ = ev.run(c.find_method(m), self_cls=c)
+    mp = [t for t in sym.walk(v) if t.k == 'call' and t.a[0] == Term('ext', 'map')]
+    ok = len(mp) == 1 and len(mp[0].a[1]) == 3 and mp[0].a[1][1].k == 'tuple' and mp[0].a[1][2].k == 'tuple' and len(mp[0].a[1][1].a) == 2 and len(mp[0].a[1][2].a) == 2
+    chk.require(ok, f'{SH}.FastSphericalHarmonics.{m}: not map(_round_to_multiple, limits, multiples) over two axes: {sym.show(v)[:120]}')
+    forms[m] = (mp[0].a[1][1].a, mp[0].a[1][2].a)
+  rf = prog.func(f'{SH}._round_to_multiple')
+  rv, _, _ = sym.Evaluator(prog).run(rf)
+  rp = rf.param_names()
+  def padded(m, env):
+    lims, mults = forms[m]
+    return tuple(_numfold(rv, {rp[0]: _numfold(l_, env), rp[1]: _numfold(u_, env)}) for l_, u_ in zip(lims, mults))
+  # named grids: (M, L, lon, lat) from construct and the literal (W, G) of each factory
+  g = prog.cls(f'{SH}.Grid')
+  evc = sym.Evaluator(prog)
+  vc, _, _ = evc.run(g.find_method('construct'))
+  fld = lambda n_: util.field(vc, n_) if vc.k == 'obj' else util.call_kwargs(vc).get(n_)
+  evf = sym.Evaluator(prog, sym.Options(opaque={f'{SH}.Grid.construct'}))
+  grids = []
+  for name, fi in sorted(g.methods.items()):
+    if re.fullmatch(r'(TL|T)\d+', name) and fi.is_classmethod():
+      v, _, _ = evf.run(fi)
+      kw = util.call_kwargs(v) if v.k == 'call' else {}
+      w_, g_ = kw.get('max_wavenumber'), kw.get('gaussian_nodes')
+      if w_ is not None and g_ is not None and w_.k == 'const' and g_.k == 'const':
+        e0 = {'max_wavenumber': w_.a[0], 'gaussian_nodes': g_.a[0]}
+        grids.append((name, {n_: _numfold(fld(n_), e0) for n_ in ('longitude_wavenumbers', 'total_wavenumbers', 'longitude_nodes', 'latitude_nodes')}))
+  chk.require(len(grids) >= 10, f'{SH}.Grid: named factory grids not found')
+  meshes = sorted({(x_, y_) for x_ in (1, 2, 4, 8) for y_ in (1, 2, 4, 8) if x_ * y_ <= 8 and x_ * y_ > 1})
+  coll = []
+  try:
+    for name, dims in grids:
+      for x_, y_ in meshes:
+        env = dict(dims, base_shape_multiple=8, has_mesh=True, **{'mesh.x': x_, 'mesh.y': y_})
+        if padded('nodal_shape', env) == padded('modal_shape', env):
+          coll.append((name, (x_, y_), padded('modal_shape', env)))
+  except guards.Inconclusive as e:
+    raise AnalysisError(f'{rule}: padded-shape formula not foldable ({e})')
+  for fname, f, bs in sites:
+    if not bs:
+      chk.ok(rule, f'{CS}.{fname}: the representation is not inferred from the array shape', '', (f.file, f.lineno))
+      continue
+    chk.check(not coll, rule, f'{CS}.{fname}: "already converted" is inferred from shape == grid shape',
+              f'{len(grids)} named grids × {len(meshes)} (x, y) meshes folded; nodal_shape == modal_shape for ' + (', '.join(f'{n_} on x={m_[0]},y={m_[1]} → {s_}' for n_, m_, s_ in coll[:12]) or 'none'),
+              (f.file, f.lineno), 'nodal_shape ≠ modal_shape for every supported layout (or a dispatch that does not rely on shapes)',
+              f'{len(coll)} colliding layouts, e.g. ' + ', '.join(f'{n_}@{m_}' for n_, m_, _ in coll[:6]))
+  chk.at_least(rule, 2)
+
+
 def run(chk, prog, tier):
+  rule_shape_dispatch(chk, prog)
   rule_sharded_implicit(chk, prog)
   # sibling: the clip mask counts from the resolved truncation, not from the end of the padded axis (every n, every fast path) — C02.5's mask rule
   from rules import c02 as _c02
